@@ -229,6 +229,29 @@ def wfEArms : List (Bool × Expr F × Expr F) → Bool
   | (_, c, t) :: rest => wfE c && wfE t && enFree t && wfEArms rest
 end
 
+mutual
+/-- `wfE` without the requirement that an else-chain has its final arm: the shapes on which `build` and the STRICT
+evaluator (Lemmas/CompileStrict.lean: reaching a missing fall-through is an error) agree -/
+def wfC : Expr F → Bool
+  | .lit (.expr _) => false
+  | .lit _ | .input | .ident _ | .nested _ | .emptyNested => true
+  | .unary op x => unOK op && wfC x
+  | .binary op l r => binOK op && wfC l && wfC r
+  | .pair l r | .applyTo l r | .seq l r | .infixApply l _ r => wfC l && wfC r
+  | .reapply x | .prefixApply _ x | .suffixApply x _ => wfC x
+  | .list items => wfCList items
+  | .cond _ c t => wfC c && wfC t && enFree t
+  | .and l r | .or l r => wfC l && wfC r && enFree r
+  | .chain arms final => wfCArms arms && (match final with | some e => wfC e | none => true)
+  | .sideAfter x b => wfC x && wfC b && noR b
+def wfCList : List (Expr F) → Bool
+  | [] => true
+  | x :: xs => wfC x && wfCList xs
+def wfCArms : List (Bool × Expr F × Expr F) → Bool
+  | [] => true
+  | (_, c, t) :: rest => wfC c && wfC t && enFree t && wfCArms rest
+end
+
 /-! ### unfolding lemmas for the else-chain (its equations are split by the shape of the final arm) -/
 
 theorem len_chain (arms : List (Bool × Expr F × Expr F)) (final : Option (Expr F)) :
@@ -249,6 +272,9 @@ theorem enFree_chain (arms : List (Bool × Expr F × Expr F)) (final : Option (E
 theorem wfE_chain (arms : List (Bool × Expr F × Expr F)) (final : Option (Expr F)) :
     wfE (.chain arms final) = (wfEArms arms && (match final with | some e => wfE e | none => false)) := by
   rw [wfE.eq_def]
+theorem wfC_chain (arms : List (Bool × Expr F × Expr F)) (final : Option (Expr F)) :
+    wfC (.chain arms final) = (wfCArms arms && (match final with | some e => wfC e | none => true)) := by
+  rw [wfC.eq_def]
 theorem Located_chain (P : Prog F) (root cur pc : Nat) (arms : List (Bool × Expr F × Expr F)) (final : Option (Expr F)) :
     Located P root cur pc (.chain arms final) =
     ∃ join, LocatedArms P root cur join pc arms ∧
@@ -259,6 +285,41 @@ theorem Located_chain (P : Prog F) (root cur pc : Nat) (arms : List (Bool × Exp
           | _ :: _ => True) ∧
       (arms ≠ [] → P.jumps[join]? = some (pc + len (.chain arms final)) ∧ join ≠ cur) := by
   rw [Located.eq_def]
+
+mutual
+theorem wfE_wfC : ∀ (e : Expr F), wfE e = true → wfC e = true
+  | .lit v, h => by cases v <;> simp_all [wfE, wfC]
+  | .input, _ | .ident _, _ | .nested _, _ | .emptyNested, _ => by simp [wfC]
+  | .unary _ x, h | .reapply x, h | .prefixApply _ x, h | .suffixApply x _, h => by
+    simp only [wfE, wfC, Bool.and_eq_true] at h ⊢
+    first | exact wfE_wfC x h | exact ⟨h.1, wfE_wfC x h.2⟩
+  | .binary _ l r, h => by
+    simp only [wfE, wfC, Bool.and_eq_true] at h ⊢
+    exact ⟨⟨h.1.1, wfE_wfC l h.1.2⟩, wfE_wfC r h.2⟩
+  | .pair l r, h | .applyTo l r, h | .seq l r, h | .infixApply l _ r, h => by
+    simp only [wfE, wfC, Bool.and_eq_true] at h ⊢
+    exact ⟨wfE_wfC l h.1, wfE_wfC r h.2⟩
+  | .cond _ l r, h | .and l r, h | .or l r, h | .sideAfter l r, h => by
+    simp only [wfE, wfC, Bool.and_eq_true] at h ⊢
+    exact ⟨⟨wfE_wfC l h.1.1, wfE_wfC r h.1.2⟩, h.2⟩
+  | .list items, h => by
+    simp only [wfE, wfC] at h ⊢
+    exact wfEList_wfC items h
+  | .chain arms none, h => by simp [wfE_chain] at h
+  | .chain arms (some e), h => by
+    simp only [wfE_chain, wfC_chain, Bool.and_eq_true] at h ⊢
+    exact ⟨wfEArms_wfC arms h.1, wfE_wfC e h.2⟩
+theorem wfEList_wfC : ∀ (l : List (Expr F)), wfEList l = true → wfCList l = true
+  | [], _ => rfl
+  | x :: xs, h => by
+    simp only [wfEList, wfCList, Bool.and_eq_true] at h ⊢
+    exact ⟨wfE_wfC x h.1, wfEList_wfC xs h.2⟩
+theorem wfEArms_wfC : ∀ (l : List (Bool × Expr F × Expr F)), wfEArms l = true → wfCArms l = true
+  | [], _ => rfl
+  | (_, c, t) :: rest, h => by
+    simp only [wfEArms, wfCArms, Bool.and_eq_true] at h ⊢
+    exact ⟨⟨⟨wfE_wfC c h.1.1.1, wfE_wfC t h.1.1.2⟩, h.1.2⟩, wfEArms_wfC rest h.2⟩
+end
 
 /-! ### reachability of the flat machine -/
 
